@@ -296,7 +296,7 @@ def accept_table(F, fn, type_adt=TY):
     if not ms:
         return None
     m = ms[0]
-    arity = m.get("scrut_ty", "").count("ty::Type") or 1
+    arity = m.get("scrut_ty", "").count("sylt_compiler::ty::Type") or 1
     for arm in m["arms"]:
         for alt in pat_alternatives(arm["pat"]):
             pats = _tuple_pats(alt, arity)
